@@ -28,7 +28,7 @@ Print Assumptions C10_dry_run_predicts.
 Theorem C10_same_failing_patch :
   forall cfg db series st index fs,
   match apply_series cfg db st index series fs, apply_series (dry cfg) db st index series fs with
-  | (_, ROk (_, n)), (_, ROk (_, n')) => n = n'
+  | (_, ROk (_, n, _)), (_, ROk (_, n', _)) => n = n'
   | (_, RErr e), (_, r') => early_error e = true -> r' = RErr e
   | (_, ROk _), (_, _) => False
   | (_, RPanic), _ => True
